@@ -169,15 +169,18 @@ def ps_variants(m):
     import lightworks as lw
     p = lw.PostSelection()
     p.add(0, (0, 1))
-    return [("none", None), ("rule", p), ("fn", lambda s: s[m - 1] <= 1)]
+    first = lw.State([1] + [0] * (m - 1))
+    # "fn-state": a predicate written for State objects, as documented ("takes a single argument, expected to be a State object")
+    return [("none", None), ("rule", p), ("fn", lambda s: s[m - 1] <= 1), ("fn-state", lambda s: isinstance(s, lw.State) and s != first and s.n_photons >= 0)]
 
 
 def ps_ok(ps, s):
     if ps is None:
         return True
+    import lightworks as lw
     if hasattr(ps, "validate"):
         return ps.validate(s)
-    return bool(ps(s))
+    return bool(ps(lw.State(list(s))))
 
 
 def check_categorical(kind):
@@ -340,9 +343,14 @@ def check_seeds():
         for det in (emulator.Detector(), emulator.Detector(efficiency=0.8, p_dark=0.0, photon_counting=False)):
             s = emulator.Sampler(circ, lw.State(inp), detector=det)
             q = emulator.QuickSampler(circ, lw.State(inp)) if "lossy" not in label else None
-            for seed in (0, 1, 99):
+            import numpy as _np
+            for seed in (0, 1, 99, _np.int64(5), 7.0):
                 n += 1
-                a, b = s.sample_N_inputs(300, seed=seed), s.sample_N_inputs(300, seed=seed)
+                try:
+                    a, b = s.sample_N_inputs(300, seed=seed), s.sample_N_inputs(300, seed=seed)
+                except Exception as e:  # noqa: BLE001
+                    fails.append((dict(setup=label, seed=repr(seed)), f"sample_N_inputs(seed={seed!r}) raised {type(e).__name__}: {str(e)[:120]}"))
+                    continue
                 if dict(a) != dict(b):
                     fails.append((dict(setup=label, seed=seed), "sample_N_inputs not reproducible for a fixed seed"))
                 a, b = s.sample_N_outputs(300, seed=seed), s.sample_N_outputs(300, seed=seed)
